@@ -175,6 +175,14 @@ def stepSig (s : Sig) (c : Cfg) (op : Json) : R (Sig × Cfg × Json) := do
     match Cfg.updateCallable ns c drop with
     | .ok c' => return (ns, c', .str "ok")
     | .error _ => return (s, c, errJson)
+  | "setattr2" =>
+    let v ← parseVal (← jidx a 3)
+    match c.setAttr s (← jstr (← jidx a 1)) v with
+    | .error _ => return (s, c, errJson)
+    | .ok c1 =>
+      match c1.setAttr s (← jstr (← jidx a 2)) v with
+      | .error _ => return (s, c1, errJson)
+      | .ok c2 => return (s, c2, .str "ok")
   | "assign" | "copy_with" =>
     let kvs ← jlist (← jidx a 1)
     let mut c := c
